@@ -180,8 +180,23 @@ impl Incremental {
             self.miss.insert(path.src.clone());
             return false;
         };
-        // Loaded now while `entry` is borrowed; replayed only on success.
-        let diag_bytes = self.store.load_diagnostics(entry);
+        // Decoded now, before anything is restored; replayed only on success.
+        // A file whose recorded diagnostics cannot be loaded must miss:
+        // restoring it anyway would silently drop its warnings.
+        let diags = if entry.diagnostics.is_some() {
+            let diags = self
+                .store
+                .load_diagnostics(entry)
+                .and_then(|x| fragment_cache::restore_diagnostics(&x).ok());
+            let Some(diags) = diags else {
+                debug!("Failed to load diagnostics ({src})");
+                self.miss.insert(path.src.clone());
+                return false;
+            };
+            diags
+        } else {
+            Vec::new()
+        };
         let Ok(fragment) = Fragment::from_bytes(&bytes) else {
             debug!("Failed to decode fragment ({src})");
             self.miss.insert(path.src.clone());
@@ -198,12 +213,7 @@ impl Incremental {
                 self.store.keep(&src);
                 self.restored += 1;
                 self.inputs.remove(&path.src);
-                if let Some(diag_bytes) = diag_bytes {
-                    match fragment_cache::restore_diagnostics(&diag_bytes) {
-                        Ok(diags) => self.restored_diagnostics.extend(diags),
-                        Err(x) => debug!("Failed to restore diagnostics ({src}): {x}"),
-                    }
-                }
+                self.restored_diagnostics.extend(diags);
                 true
             }
             Err(x) => {
